@@ -193,6 +193,14 @@ def run(ctx):
         ok = sel[0].v == f"slaves[{idx}][0](master.adr)"
     ctx.ob("W2", WB, "Decoder", "sel[i] = predicate of slave i on master.adr", ok, "" if ok else f"{[(a.t, a.v) for a in sel]}",
            sel[0].line if sel else 0)
+    # ... in every configuration: no other driver of the select (a constant select for a degenerate slave count presents unmapped
+    # addresses to the only slave), and the per-slave decode is built for every number of slaves
+    other = [a for a in fx.find() if a.t == "slave_sel" or (a.t.startswith("slave_sel[") and a not in sel)]
+    built = bool(sel) and all(q.pg_active(sel[0].pyguards, {"ns": n_, "register": r_}) for n_ in (1, 2, 3) for r_ in (True, False))
+    ok = not other and built
+    ctx.ob("W2", WB, "Decoder", "the address decode is the only driver of the select, for every number of slaves", ok,
+           "" if ok else (f"`{other[0].t} <= {other[0].v}` {other[0].pyguards}: a cycle to an address outside every region still selects a slave"
+                          if other else f"decode built only under {sel[0].pyguards}"), (other[0].line if other else (sel[0].line if sel else 0)))
     # sel_r follows sel: comb copy or registered copy
     depth_cfg = {}
     if sel_r:
